@@ -614,7 +614,10 @@ func minInt(a, b int) int {
 // discrepancies.
 func (s *Sess) exec(op *Op) *Res {
 	s.step++
-	if !s.m.AllowNoSpc && s.srv.N != nil && s.srv.N.VerifFsState().Balloc.NumFree() < 80 {
+	if !s.m.AllowNoSpc && s.srv.N != nil && s.srv.N.VerifFsState().Balloc.NumFree() < 80 && diskFreeBlocks(s.srv.N.VerifFsState()) < 80 {
+		// (both the running allocator and the bitmap on the logical disk say
+		// so: an allocator that wrongly believes the disk is full must not
+		// excuse itself)
 		// the workload itself has (nearly) filled the disk: from here on
 		// allocating requests may be refused, WRITEs may be short and holes
 		// may not be materialisable by READ - the reference follows the
